@@ -1,10 +1,1534 @@
-//! C14 — not implemented yet.
+//! C14 — configuration documents in YAML / JSON / TOML. A case carries a LOGICAL configuration, a
+//! key-order seed and an optional injection; the harness renders the document into the three
+//! formats itself, loads each with the real code (lossy: `load_config_file` and the same steps by
+//! hand to see the error lists; strict: `serde_*::from_str::<RawConfig>` + `create_raw_config`),
+//! installs the result in a `Logger`, sends probe records and reads back what the file-based
+//! appenders wrote. For valid documents the same probes also go through the equivalent
+//! programmatic configuration.
+use crate::proto::*;
 use crate::rng::Rng;
+use log::{Level, LevelFilter, Log, Record};
+use log4rs::append::console::{ConsoleAppender, Target};
+use log4rs::append::file::FileAppender;
+use log4rs::append::rolling_file::policy::compound::{roll::delete::DeleteRoller, trigger::size::SizeTrigger, CompoundPolicy};
+use log4rs::append::rolling_file::RollingFileAppender;
+use log4rs::append::Append;
+use log4rs::config::{Appender, Config, Deserializers, Logger as LoggerCfg, RawConfig, Root};
+use log4rs::encode::{json::JsonEncoder, pattern::PatternEncoder, Encode};
+use log4rs::filter::threshold::ThresholdFilter;
+use std::str::FromStr;
+use std::sync::atomic::{AtomicUsize, Ordering};
+use std::sync::Arc;
 
-pub fn gen(_rng: &mut Rng, _n: usize, _thorough: bool, _emit: &mut dyn FnMut(String)) {}
+const PROBE_PATTERN: &str = "{l} {t} {m}{n}";
+const T0: i64 = 1_700_000_000;
 
-pub fn exec(_fields: &[&str]) -> String {
-    "unimplemented".to_owned()
+// ------------------------------------------------------------------------------------------------
+// serde data model
+// ------------------------------------------------------------------------------------------------
+#[derive(Clone, Debug, PartialEq)]
+enum V {
+    Null,
+    Bool(bool),
+    Int(i128),
+    Float,
+    Str(String),
+    Seq(Vec<V>),
+    Map(Vec<(String, V)>),
+}
+
+#[derive(Clone, Debug)]
+enum Step {
+    Key(String),
+    Idx(usize),
+}
+
+fn set_entry(k: &str, payload: &Option<V>, kvs: &mut Vec<(String, V)>) {
+    if let Some(pos) = kvs.iter().position(|kv| kv.0 == k) {
+        match payload {
+            Some(v) => kvs[pos].1 = v.clone(),
+            None => {
+                kvs.remove(pos);
+            }
+        }
+    } else if let Some(v) = payload {
+        kvs.push((k.to_owned(), v.clone()));
+    }
+}
+
+/// mirror of `modifyAt` (Pipeline.lean)
+fn modify_at(path: &[Step], payload: &Option<V>, v: &mut V) {
+    match (path.first(), v) {
+        (None, v) => {
+            if let Some(p) = payload {
+                *v = p.clone();
+            }
+        }
+        (Some(Step::Key(k)), V::Map(kvs)) => {
+            if path.len() == 1 {
+                set_entry(k, payload, kvs);
+            } else {
+                for kv in kvs.iter_mut() {
+                    if &kv.0 == k {
+                        modify_at(&path[1..], payload, &mut kv.1);
+                    }
+                }
+            }
+        }
+        (Some(Step::Idx(i)), V::Seq(xs)) => {
+            if let Some(x) = xs.get_mut(*i) {
+                modify_at(&path[1..], payload, x);
+            }
+        }
+        _ => {}
+    }
+}
+
+/// mirror of `permute` (factorial number system)
+fn permute<T>(seed: u64, mut xs: Vec<T>) -> Vec<T> {
+    let mut out = Vec::with_capacity(xs.len());
+    let mut s = seed;
+    while !xs.is_empty() {
+        let n = xs.len() as u64;
+        let i = (s % n) as usize;
+        s /= n;
+        out.push(xs.remove(i));
+    }
+    out
+}
+
+fn shuffle(seed: u64, v: V) -> V {
+    match v {
+        V::Seq(xs) => V::Seq(xs.into_iter().map(|x| shuffle(seed, x)).collect()),
+        V::Map(kvs) => V::Map(permute(seed, kvs.into_iter().map(|(k, x)| (k, shuffle(seed, x))).collect())),
+        v => v,
+    }
+}
+
+fn jstr(s: &str) -> String {
+    serde_json::to_string(s).unwrap()
+}
+
+fn to_json(v: &V) -> String {
+    match v {
+        V::Null => "null".into(),
+        V::Bool(b) => b.to_string(),
+        V::Int(n) => n.to_string(),
+        V::Float => "1.5".into(),
+        V::Str(s) => jstr(s),
+        V::Seq(xs) => format!("[{}]", xs.iter().map(to_json).collect::<Vec<_>>().join(", ")),
+        V::Map(kvs) => format!(
+            "{{{}}}",
+            kvs.iter().map(|(k, x)| format!("{}: {}", jstr(k), to_json(x))).collect::<Vec<_>>().join(", ")
+        ),
+    }
+}
+
+fn toml_inline(v: &V) -> String {
+    match v {
+        V::Null => "\"\"".into(), // unreachable: null entries are dropped, nulls never sit in arrays
+        V::Bool(b) => b.to_string(),
+        V::Int(n) => n.to_string(),
+        V::Float => "1.5".into(),
+        V::Str(s) => jstr(s),
+        V::Seq(xs) => format!("[{}]", xs.iter().map(toml_inline).collect::<Vec<_>>().join(", ")),
+        V::Map(kvs) => {
+            let items: Vec<String> = kvs
+                .iter()
+                .filter(|(_, x)| *x != V::Null)
+                .map(|(k, x)| format!("{} = {}", jstr(k), toml_inline(x)))
+                .collect();
+            if items.is_empty() {
+                "{}".into()
+            } else {
+                format!("{{ {} }}", items.join(", "))
+            }
+        }
+    }
+}
+
+/// TOML has no null: null-valued entries are left out. Top-level keys with inline values, so that
+/// any key order is expressible.
+fn to_toml(v: &V) -> String {
+    match v {
+        V::Map(kvs) => kvs
+            .iter()
+            .filter(|(_, x)| *x != V::Null)
+            .map(|(k, x)| format!("{} = {}\n", jstr(k), toml_inline(x)))
+            .collect(),
+        other => format!("value = {}\n", toml_inline(other)),
+    }
+}
+
+fn yaml_plain_ok(s: &str) -> bool {
+    let mut cs = s.chars();
+    let first_ok = matches!(cs.next(), Some(c) if c.is_ascii_alphabetic() || c == '_');
+    let reserved = ["true", "false", "null", "yes", "no", "on", "off", "y", "n"];
+    first_ok && s.chars().all(|c| c.is_ascii_alphanumeric() || c == '_') && !reserved.contains(&s.to_ascii_lowercase().as_str())
+}
+
+fn yaml_scalar(s: &str) -> String {
+    if yaml_plain_ok(s) {
+        s.to_owned()
+    } else {
+        jstr(s)
+    }
+}
+
+fn yaml_flow(v: &V) -> String {
+    match v {
+        V::Null => "~".into(),
+        V::Str(s) => yaml_scalar(s),
+        V::Seq(xs) => format!("[{}]", xs.iter().map(yaml_flow).collect::<Vec<_>>().join(", ")),
+        V::Map(kvs) => format!(
+            "{{{}}}",
+            kvs.iter().map(|(k, x)| format!("{}: {}", jstr(k), yaml_flow(x))).collect::<Vec<_>>().join(", ")
+        ),
+        other => to_json(other),
+    }
+}
+
+/// block style for maps, flow style for sequences and empty maps
+fn yaml_block(v: &V, indent: usize, out: &mut String) {
+    if let V::Map(kvs) = v {
+        for (k, x) in kvs {
+            let pad = " ".repeat(indent);
+            match x {
+                V::Map(inner) if !inner.is_empty() => {
+                    out.push_str(&format!("{}{}:\n", pad, yaml_scalar(k)));
+                    yaml_block(x, indent + 2, out);
+                }
+                _ => out.push_str(&format!("{}{}: {}\n", pad, yaml_scalar(k), yaml_flow(x))),
+            }
+        }
+    }
+}
+
+fn to_yaml(v: &V) -> String {
+    match v {
+        V::Map(kvs) if !kvs.is_empty() => {
+            let mut s = String::new();
+            yaml_block(v, 0, &mut s);
+            s
+        }
+        other => format!("{}\n", yaml_flow(other)),
+    }
+}
+
+// ------------------------------------------------------------------------------------------------
+// logical configuration
+// ------------------------------------------------------------------------------------------------
+#[derive(Clone, Debug)]
+enum Sc {
+    Int(i128),
+    Str(String),
+}
+
+#[derive(Clone, Debug)]
+enum Trig {
+    Size(Sc),
+    Time(Sc, Option<bool>, Option<u64>),
+    OnStartUp(Option<u64>),
+}
+
+#[derive(Clone, Debug)]
+enum Roll {
+    Delete,
+    Window(Option<u64>, u64),
+}
+
+#[derive(Clone, Debug)]
+struct Enc {
+    kind_explicit: bool,
+    json: bool,
+    pattern: bool,
+}
+
+#[derive(Clone, Debug)]
+struct App {
+    name: String,
+    kind: u8,
+    filters: Option<Vec<String>>,
+    path: String,
+    flag: Option<bool>,
+    enc: Option<Enc>,
+    target: Option<bool>,
+    policy_kind: bool,
+    trig: Trig,
+    roll: Roll,
+}
+
+#[derive(Clone, Debug)]
+struct Lg {
+    name: String,
+    level: String,
+    additive: Option<bool>,
+    appenders: Option<Vec<String>>,
+}
+
+#[derive(Clone, Debug)]
+struct Cfg {
+    refresh: Option<String>,
+    root: Option<(Option<String>, Option<Vec<String>>)>,
+    loggers: Vec<Lg>,
+    appenders: Vec<App>,
+}
+
+struct Case {
+    cfg: Cfg,
+    probes: Vec<(String, usize)>,
+    seed: u64,
+    cls: String,
+    path: Vec<Step>,
+    payload: Option<V>,
+    payload_enc: String,
+}
+
+fn enc_names(xs: &[String]) -> String {
+    enc_list(",", &xs.iter().map(|s| enc_str(s)).collect::<Vec<_>>())
+}
+
+fn enc_opt_names(o: &Option<Vec<String>>) -> String {
+    match o {
+        None => "-".into(),
+        Some(xs) => enc_names(xs),
+    }
+}
+
+fn enc_ob(o: Option<bool>) -> String {
+    enc_opt(o, |b| enc_bool(b).to_owned())
+}
+
+fn enc_on(o: Option<u64>) -> String {
+    enc_opt(o, |n| n.to_string())
+}
+
+fn enc_sc(s: &Sc) -> String {
+    match s {
+        Sc::Int(n) => format!("i{}", n),
+        Sc::Str(s) => format!("s{}", enc_str(s)),
+    }
+}
+
+fn enc_app(a: &App) -> String {
+    let trig = match &a.trig {
+        Trig::Size(s) => format!("s:{}", enc_sc(s)),
+        Trig::Time(s, m, d) => format!("t:{}:{}:{}", enc_sc(s), enc_ob(*m), enc_on(*d)),
+        Trig::OnStartUp(m) => format!("o:{}", enc_on(*m)),
+    };
+    let roll = match &a.roll {
+        Roll::Delete => "d".to_owned(),
+        Roll::Window(b, n) => format!("w:{}:{}", enc_on(*b), n),
+    };
+    let enc = match &a.enc {
+        None => "-".to_owned(),
+        Some(e) => format!("{}{}{}", enc_bool(e.kind_explicit), enc_bool(e.json), enc_bool(e.pattern)),
+    };
+    [
+        enc_str(&a.name),
+        a.kind.to_string(),
+        match &a.filters {
+            None => "-".into(),
+            Some(f) => enc_names(f),
+        },
+        enc_str(&a.path),
+        enc_ob(a.flag),
+        enc,
+        enc_ob(a.target),
+        enc_bool(a.policy_kind).to_owned(),
+        trig,
+        roll,
+    ]
+    .join("/")
+}
+
+fn enc_case(c: &Case) -> String {
+    let cfg = &c.cfg;
+    let root = match &cfg.root {
+        None => "-".to_owned(),
+        Some((l, a)) => format!("{}/{}", enc_opt(l.as_ref(), |s| enc_str(s)), enc_opt_names(a)),
+    };
+    let loggers: Vec<String> = cfg
+        .loggers
+        .iter()
+        .map(|l| format!("{}/{}/{}/{}", enc_str(&l.name), enc_str(&l.level), enc_ob(l.additive), enc_opt_names(&l.appenders)))
+        .collect();
+    let apps: Vec<String> = cfg.appenders.iter().map(enc_app).collect();
+    let probes: Vec<String> = c.probes.iter().map(|(t, l)| format!("{}:{}", enc_str(t), l)).collect();
+    let path: Vec<String> = c
+        .path
+        .iter()
+        .map(|s| match s {
+            Step::Key(k) => format!("k{}", enc_str(k)),
+            Step::Idx(i) => format!("#{}", i),
+        })
+        .collect();
+    [
+        enc_opt(cfg.refresh.as_ref(), |s| enc_str(s)),
+        root,
+        enc_list(";", &loggers),
+        enc_list("|", &apps),
+        enc_list(",", &probes),
+        c.seed.to_string(),
+        c.cls.clone(),
+        enc_list(",", &path),
+        c.payload_enc.clone(),
+    ]
+    .join("\t")
+}
+
+fn dec_names(s: &str) -> Option<Vec<String>> {
+    dec_list(',', s).iter().map(|x| dec_str(x)).collect()
+}
+
+fn dec_opt_names(s: &str) -> Option<Option<Vec<String>>> {
+    if s == "-" {
+        Some(None)
+    } else {
+        dec_names(s).map(Some)
+    }
+}
+
+fn dec_ob(s: &str) -> Option<Option<bool>> {
+    match s {
+        "-" => Some(None),
+        "0" => Some(Some(false)),
+        "1" => Some(Some(true)),
+        _ => None,
+    }
+}
+
+fn dec_on(s: &str) -> Option<Option<u64>> {
+    if s == "-" {
+        Some(None)
+    } else {
+        s.parse().ok().map(Some)
+    }
+}
+
+fn dec_sc(s: &str) -> Option<Sc> {
+    if let Some(r) = s.strip_prefix('i') {
+        r.parse().ok().map(Sc::Int)
+    } else if let Some(r) = s.strip_prefix('s') {
+        dec_str(r).map(Sc::Str)
+    } else {
+        None
+    }
+}
+
+fn dec_app(s: &str) -> Option<App> {
+    let f: Vec<&str> = s.split('/').collect();
+    if f.len() != 10 {
+        return None;
+    }
+    let t: Vec<&str> = f[8].split(':').collect();
+    let trig = match t.as_slice() {
+        ["s", sc] => Trig::Size(dec_sc(sc)?),
+        ["t", sc, m, d] => Trig::Time(dec_sc(sc)?, dec_ob(m)?, dec_on(d)?),
+        ["o", m] => Trig::OnStartUp(dec_on(m)?),
+        _ => return None,
+    };
+    let r: Vec<&str> = f[9].split(':').collect();
+    let roll = match r.as_slice() {
+        ["d"] => Roll::Delete,
+        ["w", b, n] => Roll::Window(dec_on(b)?, n.parse().ok()?),
+        _ => return None,
+    };
+    let enc = if f[5] == "-" {
+        None
+    } else {
+        let b: Vec<char> = f[5].chars().collect();
+        if b.len() != 3 || b.iter().any(|c| *c != '0' && *c != '1') {
+            return None;
+        }
+        Some(Enc { kind_explicit: b[0] == '1', json: b[1] == '1', pattern: b[2] == '1' })
+    };
+    let kind: u8 = f[1].parse().ok()?;
+    if kind > 2 {
+        return None;
+    }
+    Some(App {
+        name: dec_str(f[0])?,
+        kind,
+        filters: if f[2] == "-" { None } else { Some(dec_names(f[2])?) },
+        path: dec_str(f[3])?,
+        flag: dec_ob(f[4])?,
+        enc,
+        target: dec_ob(f[6])?,
+        policy_kind: match f[7] {
+            "0" => false,
+            "1" => true,
+            _ => return None,
+        },
+        trig,
+        roll,
+    })
+}
+
+fn dec_payload(s: &str) -> Option<Option<V>> {
+    Some(match s {
+        "X" => None,
+        "N" => Some(V::Null),
+        "B0" => Some(V::Bool(false)),
+        "B1" => Some(V::Bool(true)),
+        "F" => Some(V::Float),
+        "M" => Some(V::Map(vec![])),
+        "Qi" => Some(V::Seq(vec![V::Int(1)])),
+        "Qr" => Some(V::Seq(vec![V::Str("info".into()), V::Seq(vec![])])),
+        _ => {
+            if let Some(r) = s.strip_prefix('I') {
+                Some(V::Int(r.parse().ok()?))
+            } else if let Some(r) = s.strip_prefix('S') {
+                Some(V::Str(dec_str(r)?))
+            } else {
+                return None;
+            }
+        }
+    })
+}
+
+fn dec_case(f: &[&str]) -> Option<Case> {
+    if f.len() != 9 {
+        return None;
+    }
+    let refresh = if f[0] == "-" { None } else { Some(dec_str(f[0])?) };
+    let root = if f[1] == "-" {
+        None
+    } else {
+        let p: Vec<&str> = f[1].split('/').collect();
+        if p.len() != 2 {
+            return None;
+        }
+        Some((if p[0] == "-" { None } else { Some(dec_str(p[0])?) }, dec_opt_names(p[1])?))
+    };
+    let mut loggers = vec![];
+    for l in dec_list(';', f[2]) {
+        let p: Vec<&str> = l.split('/').collect();
+        if p.len() != 4 {
+            return None;
+        }
+        loggers.push(Lg { name: dec_str(p[0])?, level: dec_str(p[1])?, additive: dec_ob(p[2])?, appenders: dec_opt_names(p[3])? });
+    }
+    let mut appenders = vec![];
+    for a in dec_list('|', f[3]) {
+        appenders.push(dec_app(&a)?);
+    }
+    let mut probes = vec![];
+    for p in dec_list(',', f[4]) {
+        let (t, l) = p.split_once(':')?;
+        let l: usize = l.parse().ok()?;
+        if !(1..=5).contains(&l) {
+            return None;
+        }
+        probes.push((dec_str(t)?, l));
+    }
+    let mut path = vec![];
+    for s in dec_list(',', f[7]) {
+        if let Some(r) = s.strip_prefix('k') {
+            path.push(Step::Key(dec_str(r)?));
+        } else if let Some(r) = s.strip_prefix('#') {
+            path.push(Step::Idx(r.parse().ok()?));
+        } else {
+            return None;
+        }
+    }
+    Some(Case {
+        cfg: Cfg { refresh, root, loggers, appenders },
+        probes,
+        seed: f[5].parse().ok()?,
+        cls: f[6].to_owned(),
+        path,
+        payload: dec_payload(f[8])?,
+        payload_enc: f[8].to_owned(),
+    })
+}
+
+// ------------------------------------------------------------------------------------------------
+// rendering (mirror of `render` in Pipeline.lean)
+// ------------------------------------------------------------------------------------------------
+fn s(x: &str) -> V {
+    V::Str(x.to_owned())
+}
+
+fn names(xs: &[String]) -> V {
+    V::Seq(xs.iter().map(|x| s(x)).collect())
+}
+
+fn opt_entry(kvs: &mut Vec<(String, V)>, k: &str, v: Option<V>) {
+    if let Some(v) = v {
+        kvs.push((k.to_owned(), v));
+    }
+}
+
+fn sc_value(x: &Sc) -> V {
+    match x {
+        Sc::Int(n) => V::Int(*n),
+        Sc::Str(t) => s(t),
+    }
+}
+
+fn render_app(a: &App) -> V {
+    let mut m: Vec<(String, V)> = vec![];
+    let kind = ["console", "file", "rolling_file"][a.kind as usize];
+    m.push(("kind".into(), s(kind)));
+    opt_entry(
+        &mut m,
+        "filters",
+        a.filters.as_ref().map(|fs| {
+            V::Seq(fs.iter().map(|l| V::Map(vec![("kind".into(), s("threshold")), ("level".into(), s(l))])).collect())
+        }),
+    );
+    if a.kind == 0 {
+        opt_entry(&mut m, "target", a.target.map(|b| s(if b { "stderr" } else { "stdout" })));
+        opt_entry(&mut m, "tty_only", a.flag.map(V::Bool));
+    } else {
+        m.push(("path".into(), s(&a.path)));
+        opt_entry(&mut m, "append", a.flag.map(V::Bool));
+    }
+    opt_entry(
+        &mut m,
+        "encoder",
+        a.enc.as_ref().map(|e| {
+            let mut em = vec![];
+            if e.kind_explicit {
+                em.push(("kind".to_owned(), s(if e.json { "json" } else { "pattern" })));
+            }
+            if e.pattern {
+                em.push(("pattern".to_owned(), s(PROBE_PATTERN)));
+            }
+            V::Map(em)
+        }),
+    );
+    if a.kind == 2 {
+        let mut pm = vec![];
+        if a.policy_kind {
+            pm.push(("kind".to_owned(), s("compound")));
+        }
+        let trig = match &a.trig {
+            Trig::Size(l) => V::Map(vec![("kind".into(), s("size")), ("limit".into(), sc_value(l))]),
+            Trig::Time(i, mo, d) => {
+                let mut t = vec![("kind".to_owned(), s("time")), ("interval".to_owned(), sc_value(i))];
+                opt_entry(&mut t, "modulate", mo.map(V::Bool));
+                opt_entry(&mut t, "max_random_delay", d.map(|n| V::Int(n as i128)));
+                V::Map(t)
+            }
+            Trig::OnStartUp(ms) => {
+                let mut t = vec![("kind".to_owned(), s("onstartup"))];
+                opt_entry(&mut t, "min_size", ms.map(|n| V::Int(n as i128)));
+                V::Map(t)
+            }
+        };
+        let roll = match &a.roll {
+            Roll::Delete => V::Map(vec![("kind".into(), s("delete"))]),
+            Roll::Window(b, n) => {
+                let mut r = vec![("kind".to_owned(), s("fixed_window")), ("pattern".to_owned(), s(&format!("{}.{{}}", a.path)))];
+                opt_entry(&mut r, "base", b.map(|n| V::Int(n as i128)));
+                r.push(("count".into(), V::Int(*n as i128)));
+                V::Map(r)
+            }
+        };
+        pm.push(("trigger".into(), trig));
+        pm.push(("roller".into(), roll));
+        m.push(("policy".into(), V::Map(pm)));
+    }
+    V::Map(m)
+}
+
+fn render(cfg: &Cfg) -> V {
+    let mut m: Vec<(String, V)> = vec![];
+    opt_entry(&mut m, "refresh_rate", cfg.refresh.as_ref().map(|x| s(x)));
+    opt_entry(
+        &mut m,
+        "root",
+        cfg.root.as_ref().map(|(l, a)| {
+            let mut r = vec![];
+            opt_entry(&mut r, "level", l.as_ref().map(|x| s(x)));
+            opt_entry(&mut r, "appenders", a.as_ref().map(|x| names(x)));
+            V::Map(r)
+        }),
+    );
+    if !cfg.appenders.is_empty() {
+        m.push(("appenders".into(), V::Map(cfg.appenders.iter().map(|a| (a.name.clone(), render_app(a))).collect())));
+    }
+    if !cfg.loggers.is_empty() {
+        m.push((
+            "loggers".into(),
+            V::Map(
+                cfg.loggers
+                    .iter()
+                    .map(|l| {
+                        let mut lm = vec![("level".to_owned(), s(&l.level))];
+                        opt_entry(&mut lm, "additive", l.additive.map(V::Bool));
+                        opt_entry(&mut lm, "appenders", l.appenders.as_ref().map(|x| names(x)));
+                        (l.name.clone(), V::Map(lm))
+                    })
+                    .collect(),
+            ),
+        ));
+    }
+    V::Map(m)
+}
+
+/// the document's relative paths (`path` of an appender, `pattern` of its roller) made absolute
+fn prefix_paths(doc: &V, base: &str) -> V {
+    let mut doc = doc.clone();
+    if let V::Map(top) = &mut doc {
+        for (k, apps) in top.iter_mut() {
+            if k != "appenders" {
+                continue;
+            }
+            if let V::Map(apps) = apps {
+                for (_, a) in apps.iter_mut() {
+                    if let V::Map(am) = a {
+                        for (ak, av) in am.iter_mut() {
+                            if ak == "path" {
+                                if let V::Str(p) = av {
+                                    *p = format!("{}/{}", base, p);
+                                }
+                            }
+                            if ak == "policy" {
+                                if let V::Map(pm) = av {
+                                    for (pk, pv) in pm.iter_mut() {
+                                        if pk == "roller" {
+                                            if let V::Map(rm) = pv {
+                                                for (rk, rv) in rm.iter_mut() {
+                                                    if rk == "pattern" {
+                                                        if let V::Str(p) = rv {
+                                                            *p = format!("{}/{}", base, p);
+                                                        }
+                                                    }
+                                                }
+                                            }
+                                        }
+                                    }
+                                }
+                            }
+                        }
+                    }
+                }
+            }
+        }
+    }
+    doc
+}
+
+// ------------------------------------------------------------------------------------------------
+// running the real code
+// ------------------------------------------------------------------------------------------------
+static COUNTER: AtomicUsize = AtomicUsize::new(0);
+
+fn set_clock(t: i64) {
+    log4rs::verif_hooks::set_now(Some(Arc::new(move || Some((t, 0)))));
+}
+
+fn level_of(n: usize) -> Level {
+    match n {
+        1 => Level::Error,
+        2 => Level::Warn,
+        3 => Level::Info,
+        4 => Level::Debug,
+        _ => Level::Trace,
+    }
+}
+
+fn filter_num(l: LevelFilter) -> usize {
+    l as usize
+}
+
+fn enc_refs(xs: &[String]) -> String {
+    enc_names(xs)
+}
+
+struct Summary {
+    head: String, // rr … berr
+    file_apps: Vec<String>,
+}
+
+fn summarize(config: &Config, rr: Option<std::time::Duration>, aerr: &[String], berr: &[String], cfg: &Cfg) -> Summary {
+    let mut apps: Vec<String> = config.appenders().iter().map(|a| a.name().to_owned()).collect();
+    apps.sort();
+    let mut loggers: Vec<(String, String)> = config
+        .loggers()
+        .iter()
+        .map(|l| {
+            (
+                l.name().to_owned(),
+                format!("{}:{}:{}:{}", enc_str(l.name()), filter_num(l.level()), enc_bool(l.additive()), enc_refs(l.appenders())),
+            )
+        })
+        .collect();
+    loggers.sort();
+    let mut aerr = aerr.to_vec();
+    aerr.sort();
+    let mut berr = berr.to_vec();
+    berr.sort();
+    let head = format!(
+        "rr={} root={}:{} loggers={} apps={} aerr={} berr={}",
+        enc_opt(rr, |d| d.as_nanos().to_string()),
+        filter_num(config.root().level()),
+        enc_refs(config.root().appenders()),
+        enc_list(";", &loggers.into_iter().map(|x| x.1).collect::<Vec<_>>()),
+        enc_refs(&apps),
+        enc_list(",", &aerr),
+        enc_list(",", &berr)
+    );
+    let file_apps = apps
+        .into_iter()
+        .filter(|n| cfg.appenders.iter().any(|a| &a.name == n && a.kind != 0))
+        .collect();
+    Summary { head, file_apps }
+}
+
+/// names and kinds out of `AppenderErrors`' Debug output: `Appender("name", …)` / `Filter("name", …)`
+fn parse_appender_errors(dbg: &str) -> Vec<String> {
+    let mut out = vec![];
+    for (tag, pat) in [("A", "Appender(\""), ("F", "Filter(\"")] {
+        let mut rest = dbg;
+        while let Some(i) = rest.find(pat) {
+            let after = &rest[i + pat.len() - 1..];
+            // a Rust string literal: decode with serde_json after mapping `\u{..}` and `\'`
+            let mut end = None;
+            let b: Vec<char> = after.chars().collect();
+            let mut j = 1;
+            while j < b.len() {
+                if b[j] == '\\' {
+                    j += 2;
+                    continue;
+                }
+                if b[j] == '"' {
+                    end = Some(j);
+                    break;
+                }
+                j += 1;
+            }
+            let end = match end {
+                Some(e) => e,
+                None => break,
+            };
+            let lit: String = b[1..end].iter().collect();
+            let name = unescape_debug(&lit);
+            out.push(format!("{}:{}", tag, enc_str(&name)));
+            let consumed: usize = b[..=end].iter().map(|c| c.len_utf8()).sum();
+            rest = &after[consumed..];
+        }
+    }
+    out
+}
+
+fn unescape_debug(s: &str) -> String {
+    let mut out = String::new();
+    let cs: Vec<char> = s.chars().collect();
+    let mut i = 0;
+    while i < cs.len() {
+        if cs[i] == '\\' && i + 1 < cs.len() {
+            match cs[i + 1] {
+                'n' => out.push('\n'),
+                't' => out.push('\t'),
+                'r' => out.push('\r'),
+                '0' => out.push('\0'),
+                'u' => {
+                    // \u{hex}
+                    if let Some(close) = cs[i..].iter().position(|c| *c == '}') {
+                        let hex: String = cs[i + 3..i + close].iter().collect();
+                        if let Some(c) = u32::from_str_radix(&hex, 16).ok().and_then(char::from_u32) {
+                            out.push(c);
+                        }
+                        i += close + 1;
+                        continue;
+                    }
+                }
+                c => out.push(c),
+            }
+            i += 2;
+        } else {
+            out.push(cs[i]);
+            i += 1;
+        }
+    }
+    out
+}
+
+fn parse_raw(fmt: &str, text: &str) -> Result<RawConfig, String> {
+    match fmt {
+        "yaml" => serde_yaml::from_str(text).map_err(|e| e.to_string()),
+        "json" => serde_json::from_str(text).map_err(|e| e.to_string()),
+        _ => toml::from_str(text).map_err(|e| e.to_string()),
+    }
+}
+
+fn rel_path<'a>(cfg: &'a Cfg, name: &str) -> Option<&'a str> {
+    cfg.appenders.iter().find(|a| a.name == name).map(|a| a.path.as_str())
+}
+
+/// sentinel record straight into every file-based appender, then the probes through a `Logger`
+fn drive(config: Config, file_apps: &[String], cfg: &Cfg, probes: &[(String, usize)], base: &str) -> String {
+    for a in config.appenders() {
+        if file_apps.iter().any(|n| n == a.name()) {
+            let _ = a.appender().append(&Record::builder().args(format_args!("S")).level(Level::Error).target("sentinel").build());
+        }
+    }
+    let logger = log4rs::Logger::new(config);
+    for (i, (t, l)) in probes.iter().enumerate() {
+        logger.log(&Record::builder().args(format_args!("{}", i)).level(level_of(*l)).target(t).build());
+    }
+    Log::flush(&logger);
+    drop(logger);
+    let mut files = vec![];
+    let mut w = vec![];
+    for n in file_apps {
+        let app = cfg.appenders.iter().find(|a| &a.name == n).unwrap();
+        let path = format!("{}/{}", base, rel_path(cfg, n).unwrap_or(""));
+        let content = std::fs::read_to_string(&path).unwrap_or_default();
+        let mut lines: Vec<&str> = content.lines().collect();
+        let old = if app.kind == 1 {
+            if lines.first() == Some(&"old") {
+                lines.remove(0);
+                "k"
+            } else {
+                "g"
+            }
+        } else {
+            "-"
+        };
+        let mut class = "-".to_owned();
+        let mut idx: Vec<String> = vec![];
+        for (li, line) in lines.iter().enumerate() {
+            let (c, msg) = classify(line);
+            if li == 0 {
+                class = if msg == "S" { c.to_owned() } else { format!("?{}", c) };
+            } else {
+                idx.push(msg);
+            }
+        }
+        files.push(format!("{}:{}:{}", enc_str(n), class, old));
+        w.push(format!("{}:{}", enc_str(n), enc_list(".", &idx)));
+    }
+    format!("files={} w={}", enc_list(";", &files), enc_list(";", &w))
+}
+
+/// encoder format of a line and its message: J json, P the probe pattern, D the default pattern
+fn classify(line: &str) -> (&'static str, String) {
+    if line.starts_with('{') {
+        if let Ok(serde_json::Value::Object(o)) = serde_json::from_str::<serde_json::Value>(line) {
+            if let Some(serde_json::Value::String(m)) = o.get("message") {
+                return ("J", m.clone());
+            }
+        }
+        return ("?", "?".into());
+    }
+    let toks: Vec<&str> = line.split(' ').collect();
+    if toks.len() == 3 {
+        return ("P", toks[2].to_owned());
+    }
+    if toks.len() >= 5 && toks[toks.len() - 2] == "-" {
+        return ("D", toks[toks.len() - 1].to_owned());
+    }
+    ("?", "?".into())
+}
+
+fn run_format(fmt: &str, doc: &V, case: &Case, dir: &str) -> String {
+    let base = format!("{}/{}", dir, &fmt[..1]);
+    std::fs::create_dir_all(&base).unwrap();
+    let text = {
+        let d = prefix_paths(doc, &base);
+        match fmt {
+            "yaml" => to_yaml(&d),
+            "json" => to_json(&d),
+            _ => to_toml(&d),
+        }
+    };
+    let file = format!("{}/cfg.{}", dir, fmt);
+    std::fs::write(&file, &text).unwrap();
+    set_clock(T0);
+    // strict
+    let strict = {
+        let text = text.clone();
+        let fmt = fmt.to_owned();
+        match guarded(move || match parse_raw(&fmt, &text) {
+            Err(_) => "err:parse".to_owned(),
+            Ok(raw) => match log4rs::config::create_raw_config(raw) {
+                Ok(_) => "ok".to_owned(),
+                Err(log4rs::config::InitError::Deserializing(_)) => "err:appenders".to_owned(),
+                Err(log4rs::config::InitError::BuildConfig(_)) => "err:build".to_owned(),
+                Err(_) => "err:other".to_owned(),
+            },
+        }) {
+            Ok(s) => s,
+            Err(_) => "PANIC".to_owned(),
+        }
+    };
+    // previous content of the plain file appenders' files
+    for a in &case.cfg.appenders {
+        if a.kind == 1 && !a.path.is_empty() {
+            let _ = std::fs::write(format!("{}/{}", base, a.path), "old\n");
+        }
+    }
+    set_clock(T0);
+    let cfg = case.cfg.clone();
+    let probes = case.probes.clone();
+    let cls = case.cls.clone();
+    let (text2, fmt2, file2, base2, dir2) = (text.clone(), fmt.to_owned(), file.clone(), base.clone(), dir.to_owned());
+    let lossy = guarded(move || {
+        // the public entry point
+        let via_file = match log4rs::config::load_config_file(&file2, Deserializers::default()) {
+            Err(_) => None,
+            Ok(c) => Some(summarize(&c, None, &[], &[], &cfg).head),
+        };
+        // the same steps by hand, to see the error lists
+        let raw = match parse_raw(&fmt2, &text2) {
+            Err(_) => return if via_file.is_none() { "lossy=err".to_owned() } else { "lossy=LOADFILE-DIFFERS".to_owned() },
+            Ok(r) => r,
+        };
+        let rr = raw.refresh_rate();
+        let (apps, errs) = raw.appenders_lossy(&Deserializers::default());
+        let aerr = parse_appender_errors(&format!("{:?}", errs));
+        let (config, berrs) = Config::builder().appenders(apps).loggers(raw.loggers()).build_lossy(raw.root());
+        let berr: Vec<String> = berrs
+            .errors()
+            .iter()
+            .map(|e| match e {
+                log4rs::config::runtime::ConfigError::NonexistentAppender(n) => format!("N:{}", enc_str(n)),
+                log4rs::config::runtime::ConfigError::InvalidLoggerName(n) => format!("L:{}", enc_str(n)),
+                log4rs::config::runtime::ConfigError::DuplicateAppenderName(n) => format!("DA:{}", enc_str(n)),
+                log4rs::config::runtime::ConfigError::DuplicateLoggerName(n) => format!("DL:{}", enc_str(n)),
+                _ => "?".to_owned(),
+            })
+            .collect();
+        let sum = summarize(&config, rr, &aerr, &berr, &cfg);
+        let same_as_file = via_file.as_deref() == Some(summarize(&config, None, &[], &[], &cfg).head.as_str());
+        if !same_as_file {
+            return "lossy=LOADFILE-DIFFERS".to_owned();
+        }
+        set_clock(T0 - 3600);
+        let behaviour = drive(config, &sum.file_apps, &cfg, &probes, &base2);
+        let prog = if cls == "-" || cls == "null" {
+            set_clock(T0);
+            let pb = programmatic(&cfg, &probes, &dir2);
+            if pb == behaviour {
+                "same".to_owned()
+            } else {
+                format!("DIFFER[{}]", pb)
+            }
+        } else {
+            "skip".to_owned()
+        };
+        format!("lossy=ok {} {} prog={}", sum.head, behaviour, prog)
+    });
+    let lossy = match lossy {
+        Ok(s) => s,
+        Err(_) => "lossy=PANIC".to_owned(),
+    };
+    format!("{} strict={}", lossy, strict)
+}
+
+/// the equivalent programmatic configuration of a (valid) logical configuration, driven by the
+/// same sentinel and probes; files under `<dir>/p`
+fn programmatic(cfg: &Cfg, probes: &[(String, usize)], dir: &str) -> String {
+    let base = format!("{}/p", dir);
+    let _ = std::fs::remove_dir_all(&base);
+    std::fs::create_dir_all(&base).unwrap();
+    let lvl = |t: &str| LevelFilter::from_str(t).unwrap_or(LevelFilter::Off);
+    let mut appenders = vec![];
+    for a in &cfg.appenders {
+        let enc: Option<Box<dyn Encode>> = a.enc.as_ref().map(|e| -> Box<dyn Encode> {
+            if e.json {
+                Box::new(JsonEncoder::new())
+            } else if e.pattern {
+                Box::new(PatternEncoder::new(PROBE_PATTERN))
+            } else {
+                Box::new(PatternEncoder::default())
+            }
+        });
+        let path = format!("{}/{}", base, a.path);
+        if a.kind == 1 {
+            let _ = std::fs::write(&path, "old\n");
+        }
+        let boxed: Box<dyn Append> = match a.kind {
+            0 => {
+                let mut b = ConsoleAppender::builder();
+                if let Some(t) = a.target {
+                    b = b.target(if t { Target::Stderr } else { Target::Stdout });
+                }
+                if let Some(t) = a.flag {
+                    b = b.tty_only(t);
+                }
+                if let Some(e) = enc {
+                    b = b.encoder(e);
+                }
+                Box::new(b.build())
+            }
+            1 => {
+                let mut b = FileAppender::builder();
+                if let Some(f) = a.flag {
+                    b = b.append(f);
+                }
+                if let Some(e) = enc {
+                    b = b.encoder(e);
+                }
+                Box::new(b.build(&path).unwrap())
+            }
+            _ => {
+                let mut b = RollingFileAppender::builder();
+                if let Some(f) = a.flag {
+                    b = b.append(f);
+                }
+                if let Some(e) = enc {
+                    b = b.encoder(e);
+                }
+                let policy = CompoundPolicy::new(Box::new(SizeTrigger::new(1 << 40)), Box::new(DeleteRoller::new()));
+                Box::new(b.build(&path, Box::new(policy)).unwrap())
+            }
+        };
+        let mut ab = Appender::builder();
+        for f in a.filters.clone().unwrap_or_default() {
+            ab = ab.filter(Box::new(ThresholdFilter::new(lvl(&f))));
+        }
+        appenders.push(ab.build(a.name.clone(), boxed));
+    }
+    let (rl, ra) = match &cfg.root {
+        None => (LevelFilter::Debug, vec![]),
+        Some((l, a)) => (l.as_ref().map(|t| lvl(t)).unwrap_or(LevelFilter::Debug), a.clone().unwrap_or_default()),
+    };
+    let loggers: Vec<LoggerCfg> = cfg
+        .loggers
+        .iter()
+        .map(|l| {
+            LoggerCfg::builder()
+                .appenders(l.appenders.clone().unwrap_or_default())
+                .additive(l.additive.unwrap_or(true))
+                .build(l.name.clone(), lvl(&l.level))
+        })
+        .collect();
+    let (config, _) = Config::builder().appenders(appenders).loggers(loggers).build_lossy(Root::builder().appenders(ra).build(rl));
+    let mut file_apps: Vec<String> = cfg.appenders.iter().filter(|a| a.kind != 0).map(|a| a.name.clone()).collect();
+    file_apps.sort();
+    set_clock(T0 - 3600);
+    drive(config, &file_apps, cfg, probes, &base)
+}
+
+pub fn exec(fields: &[&str]) -> String {
+    std::env::set_var("RUST_LIB_BACKTRACE", "0");
+    let case = match dec_case(fields) {
+        Some(c) => c,
+        None => return "bad-case".to_owned(),
+    };
+    let scratch = std::env::var("VERIF_SCRATCH").unwrap_or_else(|_| "/tmp/verif_scratch".to_owned());
+    let dir = format!("{}/c14_{}_{}", scratch, std::process::id(), COUNTER.fetch_add(1, Ordering::SeqCst));
+    let _ = std::fs::remove_dir_all(&dir);
+    std::fs::create_dir_all(&dir).unwrap();
+    let mut doc = render(&case.cfg);
+    if case.cls != "-" {
+        modify_at(&case.path, &case.payload, &mut doc);
+    }
+    let doc = shuffle(case.seed, doc);
+    let y = run_format("yaml", &doc, &case, &dir);
+    let j = run_format("json", &doc, &case, &dir);
+    let t = run_format("toml", &doc, &case, &dir);
+    log4rs::verif_hooks::set_now(None);
+    let _ = std::fs::remove_dir_all(&dir);
+    if y == j && j == t {
+        format!("formats=agree {}", y)
+    } else {
+        format!("formats=DISAGREE yaml=[{}] json=[{}] toml=[{}]", y, j, t)
+    }
+}
+
+// ------------------------------------------------------------------------------------------------
+// generation
+// ------------------------------------------------------------------------------------------------
+const LEVELS: &[&str] = &["off", "error", "warn", "info", "debug", "trace"];
+const APP_NAMES: &[&str] = &["a", "b", "c", "d", "e_1", "\u{e4}pp", "x::y", "A"];
+const COMPONENTS: &[&str] = &["x", "y", "z", "x1"];
+const REFRESH: &[&str] = &["30 seconds", "5 min", "1h", "2 days", "500ms", "1 week", "90s", "1 month", "2years", " 7 d ", "15 us"];
+const SIZES: &[&str] = &["10 mb", "1 GB", "500 kb", "2mib", "1048576", "3 Tb", "700000 b"];
+const INTERVALS: &[&str] = &["1 day", "2 hours", "1 week", "1 month", "1 year", "30 minutes", "5 seconds", "3600", "2 Days", "10 years"];
+
+fn level_text(rng: &mut Rng) -> String {
+    let w: &str = *rng.pick(LEVELS);
+    match rng.below(4) {
+        0 => w.to_owned(),
+        1 => w.to_ascii_uppercase(),
+        2 => {
+            let mut c = w.chars();
+            let f = c.next().unwrap().to_ascii_uppercase();
+            format!("{}{}", f, c.as_str())
+        }
+        _ => w.chars().map(|c| if rng.chance(1, 2) { c.to_ascii_uppercase() } else { c }).collect(),
+    }
+}
+
+fn opt<T>(rng: &mut Rng, f: impl FnOnce(&mut Rng) -> T) -> Option<T> {
+    if rng.chance(1, 2) {
+        Some(f(rng))
+    } else {
+        None
+    }
+}
+
+fn logger_name(rng: &mut Rng, allow_bad: bool) -> String {
+    if allow_bad && rng.chance(1, 12) {
+        return (*rng.pick(&["x:y", "", "x::", ":x", "x:::y"])).to_owned();
+    }
+    let depth = rng.range(1, 3);
+    (0..depth).map(|_| (*rng.pick(COMPONENTS)).to_owned()).collect::<Vec<_>>().join("::")
+}
+
+fn refs(rng: &mut Rng, apps: &[App], ghost: bool) -> Vec<String> {
+    let mut out = vec![];
+    for a in apps {
+        if rng.chance(1, 2) {
+            out.push(a.name.clone());
+        }
+    }
+    if !apps.is_empty() && rng.chance(1, 8) {
+        out.push(rng.pick(apps).name.clone()); // attached twice
+    }
+    if ghost && rng.chance(1, 8) {
+        out.push("ghost".to_owned());
+    }
+    rng.shuffle(&mut out);
+    out
+}
+
+fn gen_enc(rng: &mut Rng) -> Enc {
+    if rng.chance(1, 3) {
+        Enc { kind_explicit: true, json: true, pattern: false }
+    } else {
+        Enc { kind_explicit: rng.chance(1, 2), json: false, pattern: rng.chance(2, 3) }
+    }
+}
+
+fn gen_trig(rng: &mut Rng, which: u64) -> Trig {
+    match which {
+        0 => Trig::Size(if rng.chance(1, 3) { Sc::Int(rng.range(100_000, 1 << 40) as i128) } else { Sc::Str((*rng.pick(SIZES)).to_owned()) }),
+        1 => Trig::Time(
+            if rng.chance(1, 4) { Sc::Int(rng.range(1, 100_000) as i128) } else { Sc::Str((*rng.pick(INTERVALS)).to_owned()) },
+            opt(rng, |r| r.chance(1, 2)),
+            opt(rng, |r| r.range(0, 100)),
+        ),
+        _ => Trig::OnStartUp(opt(rng, |r| r.range(1, 1000))),
+    }
+}
+
+fn gen_roll(rng: &mut Rng, window: bool) -> Roll {
+    if window {
+        Roll::Window(opt(rng, |r| r.range(0, 3)), rng.range(0, 5))
+    } else {
+        Roll::Delete
+    }
+}
+
+fn gen_app(rng: &mut Rng, name: &str, idx: usize, kind: u8) -> App {
+    App {
+        name: name.to_owned(),
+        kind,
+        filters: match rng.below(4) {
+            0 => None,
+            1 => Some(vec![]),
+            2 => Some(vec![level_text(rng)]),
+            _ => Some(vec![level_text(rng), level_text(rng)]),
+        },
+        path: format!("f{}.log", idx),
+        flag: if kind == 0 { Some(true) } else { opt(rng, |r| r.chance(1, 2)) },
+        enc: opt(rng, gen_enc),
+        target: if kind == 0 { Some(true) } else { None },
+        policy_kind: rng.chance(1, 2),
+        trig: {
+            let w = rng.below(3);
+            gen_trig(rng, w)
+        },
+        roll: {
+            let w = rng.chance(1, 2);
+            gen_roll(rng, w)
+        },
+    }
+}
+
+fn gen_cfg(rng: &mut Rng, max_apps: u64) -> Cfg {
+    let n_apps = rng.range(0, max_apps) as usize;
+    let mut pool: Vec<&str> = APP_NAMES.to_vec();
+    rng.shuffle(&mut pool);
+    let appenders: Vec<App> = (0..n_apps)
+        .map(|i| {
+            let kind = match rng.below(7) {
+                0 => 0,
+                1..=3 => 1,
+                _ => 2,
+            };
+            gen_app(rng, pool[i], i, kind)
+        })
+        .collect();
+    let n_loggers = rng.range(0, 4) as usize;
+    let mut loggers: Vec<Lg> = vec![];
+    for _ in 0..n_loggers {
+        let name = logger_name(rng, true);
+        if loggers.iter().any(|l| l.name == name) {
+            continue;
+        }
+        loggers.push(Lg {
+            name,
+            level: level_text(rng),
+            additive: opt(rng, |r| r.chance(1, 2)),
+            appenders: opt(rng, |r| refs(r, &appenders, true)),
+        });
+    }
+    Cfg {
+        refresh: if rng.chance(1, 3) { Some((*rng.pick(REFRESH)).to_owned()) } else { None },
+        root: if rng.chance(1, 6) { None } else { Some((opt(rng, level_text), opt(rng, |r| refs(r, &appenders, true)))) },
+        loggers,
+        appenders,
+    }
+}
+
+fn gen_probes(rng: &mut Rng, cfg: &Cfg) -> Vec<(String, usize)> {
+    let n = rng.range(0, 6);
+    (0..n)
+        .map(|_| {
+            let t = if !cfg.loggers.is_empty() && rng.chance(1, 2) {
+                let l = rng.pick(&cfg.loggers).name.clone();
+                let l = if l.is_empty() || l.contains(' ') { "x".to_owned() } else { l };
+                if rng.chance(1, 2) {
+                    format!("{}::{}", l, rng.pick(COMPONENTS))
+                } else {
+                    l
+                }
+            } else {
+                logger_name(rng, false)
+            };
+            (t, rng.range(1, 5) as usize)
+        })
+        .collect()
+}
+
+fn k(x: &str) -> Step {
+    Step::Key(x.to_owned())
+}
+
+fn app_path(a: &App, rest: &[&str]) -> Vec<Step> {
+    let mut p = vec![k("appenders"), k(&a.name)];
+    p.extend(rest.iter().map(|x| k(x)));
+    p
+}
+
+/// (class, path, payload) choices applicable to the configuration
+fn injections(cfg: &Cfg) -> Vec<(&'static str, Vec<Step>, String)> {
+    let mut v: Vec<(&'static str, Vec<Step>, String)> = vec![];
+    let st = |x: &str| format!("S{}", enc_str(x));
+    v.push(("unk", vec![k("zzz")], "I1".into()));
+    v.push(("typ", vec![k("refresh_rate")], "I30".into()));
+    v.push(("typ", vec![k("refresh_rate")], st("30")));
+    v.push(("typ", vec![k("appenders")], "Qi".into()));
+    v.push(("typ", vec![k("loggers")], st("x")));
+    v.push(("typ", vec![k("root")], "I1".into()));
+    v.push(("seqs", vec![k("root")], "Qr".into()));
+    if cfg.refresh.is_none() {
+        v.push(("null", vec![k("refresh_rate")], "N".into()));
+    }
+    if cfg.root.is_some() {
+        v.push(("unk", vec![k("root"), k("zzz")], "I1".into()));
+        v.push(("typ", vec![k("root"), k("level")], "I3".into()));
+        v.push(("typ", vec![k("root"), k("level")], st("verbose")));
+        v.push(("typ", vec![k("root"), k("appenders")], st("a")));
+    }
+    for l in &cfg.loggers {
+        let p = |rest: &str| vec![k("loggers"), k(&l.name), k(rest)];
+        v.push(("unk", p("zzz"), "B1".into()));
+        v.push(("typ", p("additive"), st("true")));
+        v.push(("typ", p("additive"), "I1".into()));
+        v.push(("typ", p("level"), "Qi".into()));
+        v.push(("typ", p("appenders"), "M".into()));
+        v.push(("typ", vec![k("loggers"), k(&l.name)], st("x")));
+        v.push(("miss", p("level"), "X".into()));
+    }
+    for a in &cfg.appenders {
+        v.push(("unk", app_path(a, &["zzz"]), "I1".into()));
+        v.push(("kind", app_path(a, &["kind"]), st("bogus")));
+        v.push(("typ", app_path(a, &["kind"]), "I5".into()));
+        v.push(("miss", app_path(a, &["kind"]), "X".into()));
+        v.push(("typ", app_path(a, &["filters"]), "M".into()));
+        v.push(("typ", app_path(a, &["encoder"]), "Qi".into()));
+        v.push(("typ", vec![k("appenders"), k(&a.name)], "I1".into()));
+        if a.enc.is_none() {
+            v.push(("null", app_path(a, &["encoder"]), "N".into()));
+        }
+        if let Some(e) = &a.enc {
+            v.push(("unk", app_path(a, &["encoder", "zzz"]), "I1".into()));
+            v.push(("kind", app_path(a, &["encoder", "kind"]), st("bogus")));
+            v.push(("typ", app_path(a, &["encoder", "kind"]), "I1".into()));
+            if !e.json {
+                v.push(("typ", app_path(a, &["encoder", "pattern"]), "I1".into()));
+                if !e.pattern {
+                    v.push(("null", app_path(a, &["encoder", "pattern"]), "N".into()));
+                }
+            }
+        }
+        if let Some(fs) = &a.filters {
+            for i in 0..fs.len() {
+                let fp = |rest: Option<&str>| {
+                    let mut p = app_path(a, &["filters"]);
+                    p.push(Step::Idx(i));
+                    if let Some(r) = rest {
+                        p.push(k(r));
+                    }
+                    p
+                };
+                v.push(("unk", fp(Some("zzz")), "I1".into()));
+                v.push(("kind", fp(Some("kind")), st("bogus")));
+                v.push(("typ", fp(Some("kind")), "I5".into()));
+                v.push(("miss", fp(Some("kind")), "X".into()));
+                v.push(("typ", fp(Some("level")), "I3".into()));
+                v.push(("typ", fp(Some("level")), st("loud")));
+                v.push(("miss", fp(Some("level")), "X".into()));
+                v.push(("typ", fp(None), "I1".into()));
+            }
+        }
+        if a.kind == 0 {
+            v.push(("typ", app_path(a, &["tty_only"]), "I1".into()));
+            v.push(("typ", app_path(a, &["target"]), st("Stderr")));
+        } else {
+            v.push(("typ", app_path(a, &["path"]), "I5".into()));
+            v.push(("miss", app_path(a, &["path"]), "X".into()));
+            v.push(("badpath", app_path(a, &["path"]), "S_".into()));
+            v.push(("typ", app_path(a, &["append"]), st("true")));
+            if a.flag.is_none() {
+                v.push(("null", app_path(a, &["append"]), "N".into()));
+            }
+        }
+        if a.kind == 2 {
+            v.push(("unk", app_path(a, &["policy", "zzz"]), "I1".into()));
+            v.push(("kind", app_path(a, &["policy", "kind"]), st("bogus")));
+            v.push(("typ", app_path(a, &["policy"]), st("x")));
+            v.push(("miss", app_path(a, &["policy"]), "X".into()));
+            v.push(("miss", app_path(a, &["policy", "trigger"]), "X".into()));
+            v.push(("miss", app_path(a, &["policy", "roller"]), "X".into()));
+            v.push(("unk", app_path(a, &["policy", "trigger", "zzz"]), "I1".into()));
+            v.push(("unk", app_path(a, &["policy", "roller", "zzz"]), "I1".into()));
+            v.push(("kind", app_path(a, &["policy", "trigger", "kind"]), st("bogus")));
+            v.push(("kind", app_path(a, &["policy", "roller", "kind"]), st("bogus")));
+            v.push(("miss", app_path(a, &["policy", "trigger", "kind"]), "X".into()));
+            v.push(("miss", app_path(a, &["policy", "roller", "kind"]), "X".into()));
+            match &a.trig {
+                Trig::Size(_) => {
+                    v.push(("num", app_path(a, &["policy", "trigger", "limit"]), "I-5".into()));
+                    v.push(("typ", app_path(a, &["policy", "trigger", "limit"]), "B1".into()));
+                    v.push(("typ", app_path(a, &["policy", "trigger", "limit"]), st("10 parsecs")));
+                    v.push(("miss", app_path(a, &["policy", "trigger", "limit"]), "X".into()));
+                }
+                Trig::Time(_, m, _) => {
+                    let cls = if *m == Some(true) { "zeromod" } else { "zero" };
+                    v.push((cls, app_path(a, &["policy", "trigger", "interval"]), "I0".into()));
+                    v.push(("big", app_path(a, &["policy", "trigger", "interval"]), "I9223372036854775807".into()));
+                    v.push(("num", app_path(a, &["policy", "trigger", "interval"]), "I-1".into()));
+                    v.push(("num", app_path(a, &["policy", "trigger", "max_random_delay"]), "I-1".into()));
+                    v.push(("typ", app_path(a, &["policy", "trigger", "interval"]), st("1 fortnight")));
+                    v.push(("typ", app_path(a, &["policy", "trigger", "modulate"]), st("yes")));
+                }
+                Trig::OnStartUp(_) => {
+                    v.push(("num", app_path(a, &["policy", "trigger", "min_size"]), "I-1".into()));
+                    v.push(("typ", app_path(a, &["policy", "trigger", "min_size"]), "F".into()));
+                }
+            }
+            if let Roll::Window(b, _) = &a.roll {
+                v.push(("num", app_path(a, &["policy", "roller", "count"]), "I-1".into()));
+                v.push(("num", app_path(a, &["policy", "roller", "base"]), "I4294967296".into()));
+                v.push(("num", app_path(a, &["policy", "roller", "count"]), "I4294967296".into()));
+                v.push(("typ", app_path(a, &["policy", "roller", "count"]), st("3")));
+                v.push(("miss", app_path(a, &["policy", "roller", "count"]), "X".into()));
+                v.push(("ctor", app_path(a, &["policy", "roller", "pattern"]), st("nobraces.log")));
+                if b.is_none() {
+                    v.push(("null", app_path(a, &["policy", "roller", "base"]), "N".into()));
+                }
+            }
+        }
+    }
+    v
+}
+
+fn emit_case(emit: &mut dyn FnMut(String), cfg: &Cfg, probes: &[(String, usize)], seed: u64, inj: Option<&(&'static str, Vec<Step>, String)>) {
+    let (cls, path, payload_enc) = match inj {
+        None => ("-".to_owned(), vec![], "N".to_owned()),
+        Some((c, p, e)) => ((*c).to_owned(), p.clone(), e.clone()),
+    };
+    let c = Case { cfg: cfg.clone(), probes: probes.to_vec(), seed, cls, path, payload: None, payload_enc };
+    emit(enc_case(&c));
+}
+
+/// one configuration that has every section, for the deterministic injection block
+fn full_cfg() -> Cfg {
+    let mk = |name: &str, idx: usize, kind: u8, trig: Trig, roll: Roll, enc: Option<Enc>| App {
+        name: name.to_owned(),
+        kind,
+        filters: Some(vec!["info".to_owned(), "TRACE".to_owned()]),
+        path: format!("f{}.log", idx),
+        flag: if kind == 0 { Some(true) } else { None },
+        enc,
+        target: if kind == 0 { Some(true) } else { None },
+        policy_kind: false,
+        trig,
+        roll,
+    };
+    let p = Some(Enc { kind_explicit: false, json: false, pattern: true });
+    let j = Some(Enc { kind_explicit: true, json: true, pattern: false });
+    Cfg {
+        refresh: None,
+        root: Some((Some("info".into()), Some(vec!["a".into(), "r1".into()]))),
+        loggers: vec![
+            Lg { name: "x".into(), level: "debug".into(), additive: None, appenders: Some(vec!["r2".into(), "r3".into()]) },
+            Lg { name: "x::y".into(), level: "Trace".into(), additive: Some(false), appenders: Some(vec!["a".into(), "r4".into()]) },
+        ],
+        appenders: vec![
+            mk("a", 0, 1, Trig::OnStartUp(None), Roll::Delete, p.clone()),
+            mk("c", 1, 0, Trig::OnStartUp(None), Roll::Delete, p.clone()),
+            mk("r1", 2, 2, Trig::Size(Sc::Str("10 mb".into())), Roll::Window(None, 3), j),
+            mk("r2", 3, 2, Trig::Time(Sc::Str("1 day".into()), Some(true), None), Roll::Delete, p.clone()),
+            mk("r3", 4, 2, Trig::Time(Sc::Int(3600), None, Some(5)), Roll::Window(Some(1), 2), None),
+            mk("r4", 5, 2, Trig::OnStartUp(Some(10)), Roll::Delete, Some(Enc { kind_explicit: true, json: false, pattern: false })),
+        ],
+    }
+}
+
+pub fn gen(rng: &mut Rng, n: usize, thorough: bool, emit: &mut dyn FnMut(String)) {
+    // deterministic block: the full configuration, valid in several key orders, then with every
+    // applicable injection
+    let full = full_cfg();
+    let full_probes: Vec<(String, usize)> = vec![
+        ("x".into(), 3),
+        ("x::y::z".into(), 5),
+        ("x::z".into(), 4),
+        ("q".into(), 3),
+        ("q".into(), 4),
+        ("x::y".into(), 1),
+    ];
+    for seed in [0u64, 1, 7, 123456789, 4294967295] {
+        emit_case(emit, &full, &full_probes, seed, None);
+    }
+    let all = injections(&full);
+    for (i, inj) in all.iter().enumerate() {
+        emit_case(emit, &full, &full_probes, (i as u64) * 7919 + 3, Some(inj));
+    }
+    // the empty document
+    emit_case(emit, &Cfg { refresh: None, root: None, loggers: vec![], appenders: vec![] }, &[], 0, None);
+    // random stream
+    let max_apps = if thorough { 5 } else { 4 };
+    for _ in 0..n {
+        let cfg = gen_cfg(rng, max_apps);
+        let probes = gen_probes(rng, &cfg);
+        let seed = rng.below(1 << 32);
+        if rng.chance(2, 5) {
+            emit_case(emit, &cfg, &probes, seed, None);
+        } else {
+            // class first, so that rare classes (zeromod, big, ctor, badpath, null, seqs) are as
+            // frequent as the common ones
+            let inj = injections(&cfg);
+            let mut classes: Vec<&'static str> = inj.iter().map(|x| x.0).collect();
+            classes.sort();
+            classes.dedup();
+            let cls = *rng.pick(&classes);
+            let of_cls: Vec<_> = inj.into_iter().filter(|x| x.0 == cls).collect();
+            let pick = rng.pick(&of_cls).clone();
+            emit_case(emit, &cfg, &probes, seed, Some(&pick));
+        }
+    }
 }
 
 /// child-process entry point (`verif-harness child c14 …`), for checks that need process-global state
